@@ -249,6 +249,10 @@ def r2_r3_mapping(repo: Repo, rep):
                 if ents is None:
                     rep.undecided(R2, fi.site(p.ret_node), fi.fq, "the ** mapping is a recognised selection (comprehension / insertion loop / merge)", dump(m)[:200])
                     continue
+                if not ents:
+                    # a pass through the insertion loops on which no guard held: nothing inserted on this path; the paths together must pass both kinds
+                    seen_kinds.setdefault(id(p.ret_node), [p.ret_node, set()])
+                    continue
                 kinds = [_classify(e) for e in ents]
                 bad = [d for k, d in kinds if k is None]
                 gs = {d for k, d in kinds if k not in (None, "all-defaults")}
@@ -372,6 +376,11 @@ def r5_copy_on_partial(repo: Repo, rep):
                 if not fresh and (e.value.func.attr in ("set_default", "remove_default") or (e.value.func.attr in INPLACE)):
                     muts.append((dump(e.value.func.value), e))
             if e.kind in ("attr", "store", "aug") and e.target is not None:
+                base = e.target
+                while isinstance(base, ast.Subscript):
+                    base = base.value
+                if isinstance(base, (ast.Dict, ast.DictComp, ast.List, ast.ListComp)) or (isinstance(base, ast.Call) and attr_chain(base.func) in ("dict", "list", "OrderedDict")):
+                    continue  # a store into a container created in this call
                 muts.append((dump(e.target), e))
         for recv, e in muts:
             good = recv == "copy.deepcopy(self)"
@@ -403,6 +412,8 @@ def r5_copy_on_partial(repo: Repo, rep):
         rep.saw(dc)
         good = False
         detail = "no loop over self.__dict__"
+        from ..util import deref, single_defs
+        tmp = single_defs(dc.node)
         for l in ast.walk(dc.node):
             if isinstance(l, ast.For) and dump(l.iter) in ("self.__dict__.items()", "vars(self).items()") and isinstance(l.target, ast.Tuple) and len(l.target.elts) == 2:
                 k, v = (dump(x) for x in l.target.elts)
@@ -410,7 +421,7 @@ def r5_copy_on_partial(repo: Repo, rep):
                 cond = [s for s in l.body if isinstance(s, (ast.If, ast.Continue, ast.Break))]
                 if len(sets) == 1 and not cond and len(sets[0].args) == 3:
                     a = sets[0].args
-                    val = a[2]
+                    val = deref(a[2], tmp)
                     deep = isinstance(val, ast.Call) and ends(attr_chain(val.func), "deepcopy") and val.args and dump(val.args[0]) == v
                     good = dump(a[1]) == k and deep
                     detail = dump(sets[0])
